@@ -232,6 +232,8 @@ func (e *env) apply(b bug.Interface, c Call, unix int64) error {
 		_, _, err = bug.AddComment(b, a, unix, fmt.Sprintf("message %d", i), e.files(i, c.Wf), nil)
 	case "edit":
 		_, _, err = bug.EditComment(b, a, unix, target(s, c.T), fmt.Sprintf("message %d", i), e.files(i, c.Wf), nil)
+	case "editsame":
+		_, _, err = bug.EditComment(b, a, unix, target(s, c.T), currentText(s, target(s, c.T), i), e.files(i, c.Wf), nil)
 	case "title":
 		_, err = bug.SetTitle(b, a, unix, fmt.Sprintf("title %d", i), nil)
 	case "status":
@@ -269,6 +271,8 @@ func (e *env) applyCache(b *cache.BugCache, c Call, unix int64) error {
 		_, _, err = b.AddCommentRaw(a, unix, fmt.Sprintf("message %d", i), e.files(i, c.Wf), nil)
 	case "edit":
 		_, err = b.EditCommentWithFilesRaw(a, unix, entity.CombineIds(b.Id(), target(s, c.T)), fmt.Sprintf("message %d", i), e.files(i, c.Wf), nil)
+	case "editsame":
+		_, err = b.EditCommentWithFilesRaw(a, unix, entity.CombineIds(b.Id(), target(s, c.T)), currentText(s, target(s, c.T), i), e.files(i, c.Wf), nil)
 	case "title":
 		_, err = b.SetTitleRaw(a, unix, fmt.Sprintf("title %d", i), nil)
 	case "status":
@@ -289,6 +293,16 @@ func (e *env) applyCache(b *cache.BugCache, c Call, unix int64) error {
 		_, err = b.SetMetadataRaw(a, unix, target(s, c.T), map[string]string{c.Key: fmt.Sprintf("v%d", i)})
 	}
 	return err
+}
+
+// currentText: the text the targeted comment shows now (a fresh one if the target is no comment)
+func currentText(s *bug.Snapshot, target entity.Id, i int) string {
+	for _, c := range s.Comments {
+		if c.TargetId() == target {
+			return c.Message
+		}
+	}
+	return fmt.Sprintf("message %d", i)
 }
 
 func diff(path string, got Snap, exp Snap) string {
@@ -360,7 +374,7 @@ func (w *worker) run(v Vec, withCache bool) string {
 		for k, c := range v.Calls[1:] {
 			nbefore := len(cb.Snapshot().Operations)
 			if err := w.ce.applyCache(cb, c, unix+int64(k)+1); err != nil {
-				if c.K == "edit" && len(cb.Snapshot().Operations) == nbefore {
+				if (c.K == "edit" || c.K == "editsame") && len(cb.Snapshot().Operations) == nbefore {
 					return "" // the cache API refuses edits whose target is not a comment: nothing is appended, nothing to compare
 				}
 				return fmt.Sprintf("cache: call %d (%s) failed: %v", k+2, c.K, err)
@@ -453,13 +467,16 @@ func TraceCmd(args []string) {
 		rng := newRng(uint64(seed)*1000003 + uint64(i))
 		n := 20 + int(rng.next()%uint64(maxlen-19))
 		calls := []Call{{K: "create", A: 1, Add: []int{}, Rem: []int{}, Wf: rng.next()%2 == 0}}
-		kinds := []string{"comment", "comment", "edit", "edit", "title", "status", "labelf", "label", "label", "meta"}
+		kinds := []string{"comment", "comment", "edit", "edit", "editsame", "title", "status", "labelf", "label", "label", "meta"}
 		for len(calls) < n {
 			k := kinds[rng.next()%uint64(len(kinds))]
 			c := Call{K: k, A: 1 + int(rng.next()%2), Add: []int{}, Rem: []int{}}
 			switch k {
 			case "edit":
 				c.T = []string{"create", "last", "unknown"}[rng.next()%3]
+				c.Wf = rng.next()%2 == 0
+			case "editsame":
+				c.T = []string{"create", "last"}[rng.next()%2]
 				c.Wf = rng.next()%2 == 0
 			case "comment":
 				c.Wf = rng.next()%2 == 0
